@@ -12,7 +12,26 @@ def utf8_len(c):
 
 
 def str_bytes(ex, st):
-    return list(st.s.encode('utf-8'))
+    if st.is_concrete():
+        return list(st.s.encode('utf-8'))
+    out = []
+    for c in st.chars:
+        if isinstance(c, int):
+            out.extend(chr(c).encode('utf-8'))
+        elif isinstance(c, SymPiece):
+            raise Unsupported('bytes of text with a formatted symbolic integer')
+        else:
+            w = ex.prog.char_width(ex, c)
+            if w == 1:
+                out.append(z3.simplify(z3.Extract(7, 0, c)))
+            elif w == 2:
+                out += [z3.simplify(z3.Extract(7, 0, 0xC0 | z3.LShR(c, 6))), z3.simplify(z3.Extract(7, 0, 0x80 | (c & 0x3F)))]
+            elif w == 3:
+                out += [z3.simplify(z3.Extract(7, 0, 0xE0 | z3.LShR(c, 12))), z3.simplify(z3.Extract(7, 0, 0x80 | (z3.LShR(c, 6) & 0x3F))), z3.simplify(z3.Extract(7, 0, 0x80 | (c & 0x3F)))]
+            else:
+                out += [z3.simplify(z3.Extract(7, 0, 0xF0 | z3.LShR(c, 18))), z3.simplify(z3.Extract(7, 0, 0x80 | (z3.LShR(c, 12) & 0x3F))),
+                        z3.simplify(z3.Extract(7, 0, 0x80 | (z3.LShR(c, 6) & 0x3F))), z3.simplify(z3.Extract(7, 0, 0x80 | (c & 0x3F)))]
+    return out
 
 
 def str_eq(ex, a, b):
@@ -26,14 +45,14 @@ def str_eq(ex, a, b):
 
 
 def byte_to_char_index(ex, st, off, panic_msg='byte index is not a char boundary'):
-    """map a byte offset into a char index (concrete text, concrete offset)"""
+    """map a byte offset into a char index (concrete offset; symbolic chars have their width decided by forking)"""
     n = 0
     for i, c in enumerate(st.chars):
         if n == off:
             return i
         if n > off:
             raise Panic(panic_msg)
-        n += utf8_len(c)
+        n += utf8_len(c) if isinstance(c, int) else ex.prog.char_width(ex, c)
     if n == off:
         return len(st.chars)
     return None
@@ -351,15 +370,53 @@ def from_utf8(ex, r):
     sl = D(ex, r)
     items = sl.vec.items[sl.lo:sl.hi] if isinstance(sl, SliceV) else sl.items
     if any(is_sym(b) for b in items):
-        # symbolic bytes: only the all-ASCII case is modelled exactly
-        cond = and_all(ex, [simp_bool(z3.ULT(bv(b, 8), 0x80)) if is_sym(b) else (b < 0x80) for b in items])
-        if ex.branch(cond):
-            return OK(Ref(Cell(StrV([z3.ZeroExt(24, b) if is_sym(b) else b for b in items]))))
-        raise Unsupported('from_utf8 on symbolic non-ASCII bytes')
+        return from_utf8_sym(ex, items)
     try:
         return OK(Ref(Cell(StrV(bytes(items).decode('utf-8')))))
     except UnicodeDecodeError:
         return ERR(Opaque('Utf8Error'))
+
+
+def from_utf8_sym(ex, items):
+    """UTF-8 validation/decoding of a byte list with symbolic bytes: forks on the class of every lead byte"""
+    out = []
+    i = 0
+    n = len(items)
+    B = lambda x: bv(x, 8)
+    while i < n:
+        b0 = B(items[i])
+        k = ex.choose([simp_bool(z3.ULT(b0, 0x80)), simp_bool(z3.And(z3.UGE(b0, 0xC2), z3.ULE(b0, 0xDF))),
+                       simp_bool(z3.And(z3.UGE(b0, 0xE0), z3.ULE(b0, 0xEF))), simp_bool(z3.And(z3.UGE(b0, 0xF0), z3.ULE(b0, 0xF4))),
+                       simp_bool(z3.Or(z3.And(z3.UGE(b0, 0x80), z3.ULT(b0, 0xC2)), z3.UGT(b0, 0xF4)))])
+        if k == 4 or (k > 0 and i + k >= n):
+            return ERR(Opaque('Utf8Error'))
+        def cont(x):
+            return z3.And(z3.UGE(B(x), 0x80), z3.ULE(B(x), 0xBF))
+        Z = lambda x: z3.ZeroExt(24, B(x))
+        if k == 0:
+            out.append(z3.simplify(Z(items[i])) if is_sym(items[i]) else items[i])
+            i += 1
+        elif k == 1:
+            if not ex.branch(cont(items[i + 1])):
+                return ERR(Opaque('Utf8Error'))
+            out.append(z3.simplify(((Z(items[i]) & 0x1F) << 6) | (Z(items[i + 1]) & 0x3F)))
+            i += 2
+        elif k == 2:
+            b1 = B(items[i + 1])
+            ok = z3.And(cont(items[i + 1]), cont(items[i + 2]), z3.Implies(b0 == 0xE0, z3.UGE(b1, 0xA0)), z3.Implies(b0 == 0xED, z3.ULE(b1, 0x9F)))
+            if not ex.branch(ok):
+                return ERR(Opaque('Utf8Error'))
+            out.append(z3.simplify(((Z(items[i]) & 0x0F) << 12) | ((Z(items[i + 1]) & 0x3F) << 6) | (Z(items[i + 2]) & 0x3F)))
+            i += 3
+        else:
+            b1 = B(items[i + 1])
+            ok = z3.And(cont(items[i + 1]), cont(items[i + 2]), cont(items[i + 3]), z3.Implies(b0 == 0xF0, z3.UGE(b1, 0x90)), z3.Implies(b0 == 0xF4, z3.ULE(b1, 0x8F)))
+            if not ex.branch(ok):
+                return ERR(Opaque('Utf8Error'))
+            out.append(z3.simplify(((Z(items[i]) & 0x07) << 18) | ((Z(items[i + 1]) & 0x3F) << 12) | ((Z(items[i + 2]) & 0x3F) << 6) | (Z(items[i + 3]) & 0x3F)))
+            i += 4
+    out = [(o.as_long() if is_sym(o) and z3.is_bv_value(o) else o) for o in out]
+    return OK(Ref(Cell(StrV(out))))
 
 
 @nat('String::from_utf8')
@@ -552,6 +609,30 @@ for _t in ('u8', 'u16', 'u32', 'u64', 'usize', 'i32', 'i64', 'isize'):
         REG['%s::checked_%s' % (_t, _o)] = make_checked(_o, _t)
 
 
+def make_checked_shift(kind, ty):
+    w = W[ty]
+    sg = ty in SIGNED
+
+    def f(ex, a, n):
+        if is_sym(n):
+            n = ex.concretize_or_above(n, w)
+        if n >= w:
+            return NONE()
+        if is_sym(a):
+            if kind == 'shl':
+                return some(z3.simplify(a << n))
+            return some(z3.simplify((a >> n) if sg else z3.LShR(a, n)))
+        if kind == 'shl':
+            return some((a << n) & ((1 << w) - 1))
+        return some((to_signed(a, w) >> n) & ((1 << w) - 1) if sg else a >> n)
+    return f
+
+
+for _t in ('u8', 'u16', 'u32', 'u64', 'usize', 'i32', 'i64'):
+    REG['%s::checked_shr' % _t] = make_checked_shift('shr', _t)
+    REG['%s::checked_shl' % _t] = make_checked_shift('shl', _t)
+
+
 @nat('i64::abs')
 def i64_abs(ex, a):
     if is_sym(a):
@@ -614,6 +695,17 @@ def cmp_minmax(ex, callee, a, b):
     if g in W:
         return _minmax(kind, g)(ex, a, b)
     raise Unsupported('cmp::min/max on ' + str(g))
+
+
+@nat('f64::to_bits')
+def f64_to_bits(ex, a): return struct.unpack('<Q', struct.pack('<d', a))[0]
+
+
+@nat('f64::from_bits')
+def f64_from_bits(ex, a):
+    if is_sym(a):
+        raise Unsupported('f64::from_bits of symbolic value')
+    return struct.unpack('<d', struct.pack('<Q', a))[0]
 
 
 @nat('f64::abs')
